@@ -719,6 +719,8 @@ def _ev_count(n, val):
         return x.cv
     if x.k == "MemberExpr" and x.d.get("field") == "numseq" and x.d.get("rec") == "msa":
         return val
+    if x.k == "DeclRefExpr" and (x.ty or "").replace("const ", "").startswith("struct msa *"):
+        return 1                              # the msa exists (it holds val records)
     if x.k == "UnaryOperator" and x.d["op"] in ("!", "-"):
         v = _ev_count(x.kids[0], val)
         return None if v is None else (int(not v) if x.d["op"] == "!" else -v)
@@ -744,14 +746,18 @@ def r04l(ck, prog):
     fns = [K]
     for c in K.body.calls():
         H = prog.fn(prog.resolve(c.callee, K.file), required=False) if c.callee else None
-        if H is not None and H.body is not None and H.static and H.file == K.file and H not in fns and \
-                any("struct msa" in (p_["ty"] or "") for p_ in H.params) and H.name not in ("read_fasta", "read_msf", "read_clu"):
+        if H is not None and H.body is not None and "/lib/" in H.file and H not in fns and \
+                any((p_["ty"] or "").replace("const ", "").startswith("struct msa *") for p_ in H.params) and H.name not in ("read_fasta", "read_msf", "read_clu"):
             fns.append(H)
     n = 0
     for F in fns:
         exits = [g for g in F.body.find("GotoStmt")] + [r for r in F.body.find("ReturnStmt") if r not in F.success_returns()]
         for e in exits:
-            gs = [(c, pol) for c, pol in guards(e) if any(m.k == "MemberExpr" and m.d.get("field") == "numseq" and m.d.get("rec") == "msa" for m in c.walk())]
+            gs = [(c, pol) for c, pol in guards(e) if c.parent is not None and c.parent.k == "IfStmt" and
+                  any(m.k == "MemberExpr" and m.d.get("field") == "numseq" and m.d.get("rec") == "msa" for m in c.walk())]
+            # a test of the count alone (numseq against constants): anything else (i < numseq in a loop, numseq == alloc_numseq)
+            # is bookkeeping, not a judgement of how many records there are
+            gs = [(c, pol) for c, pol in gs if _ev_count(c, 1) is not None]
             if not gs:
                 continue
             n += 1
